@@ -163,9 +163,46 @@ def refinement(ctx, n, r, ratio, xi, dt=0.01):
             slack = slack + tol * p * S.sym_abs(x)
         ctx.claim('spectral_displacement_never_decreases', sd1 >= sd0 - slack)
 
+def spectra_batching(ctx, n, periods, xi, dt, pkind='ndarray'):
+    """'and hence to spectra': every entry of the pseudo and true spectra computed in a batch (any order, any sub-batch,
+    with or without a leading 0, integer- or float-typed container) equals the value computed for that period alone.
+    On a correct tree every comparison is between identical terms (the same absmax atom times the same factor)."""
+    lib = ctx.lib
+    a = ctx.arr('a', n, -100.0, 100.0)
+
+    def cont(pl):
+        if pkind == 'list':
+            return list(pl)
+        if pkind == 'tuple':
+            return tuple(pl)
+        return ctx.np.array(pl)
+    alone = {}
+    for t in periods:
+        ps = lib.sdof.pseudo_response_spectra(a, dt, ctx.np.array([float(t)]), xi)
+        ts = lib.sdof.true_response_spectra(a, dt, ctx.np.array([float(t)]), xi)
+        alone[t] = [ps[0][0], ps[1][0], ps[2][0], ts[0][0], ts[1][0], ts[2][0]]
+    ctx.observe('alone', [alone[t] for t in periods])
+    nz = [t for t in periods if t != 0]
+    # a period of exactly 0 is documented (and claimed in C01/C03) only in the leading position
+    z = [t for t in periods if t == 0][:1]
+    batches = [z + nz, z + nz[::-1], nz, nz[::-1], nz[:1] + nz[2:], z + nz[1:], z + nz[1:2] + nz[:1]]
+    names = ('sd', 'psv', 'psa', 'true_sd', 'true_sv', 'true_sa')
+    ok = {k: [] for k in names}
+    for pl in batches:
+        if not pl:
+            continue
+        ps = lib.sdof.pseudo_response_spectra(a, dt, cont(pl), xi)
+        ts = lib.sdof.true_response_spectra(a, dt, cont(pl), xi)
+        got = list(ps) + list(ts)
+        for q, t in enumerate(pl):
+            for j, k in enumerate(names):
+                ok[k].append(S.sym_and(len(got[j]) == len(pl), ctx.eq(got[j][q], alone[t][j], 1e6)))
+    for k in names:
+        ctx.claim(k + '_of_each_period_independent_of_batch', S.sym_and(*ok[k]))
+
 
 SCENARIOS = {'linearity': linearity, 'spectra_scaling': spectra_scaling, 'causality': causality, 'shift': shift,
-             'period_batching': period_batching, 'refinement': refinement}
+             'period_batching': period_batching, 'spectra_batching': spectra_batching, 'refinement': refinement}
 SELFTEST_PER_SCENARIO = 2
 
 
@@ -187,3 +224,8 @@ def obligations(tier, seed):
         if gi % 2 == 0 or not q:
             for alpha in (-2.5, 0.25):
                 yield Ob('spectra_scaling', {'n': 4 if q else 6, 'ratio': r, 'xi': xi, 'alpha': alpha}, query_ms=120000)
+    for dt, pl, kinds in ((0.1, [0, 1, 2, 3], ('list', 'ndarray', 'tuple')), (0.01, [0.0, 0.03, 0.07, 0.5], ('ndarray', 'list')),
+                          (0.1, [1, 2, 7], ('ndarray', 'list')), (0.01, [0.05, 0.2, 1.0], ('ndarray',))):
+        for pk in kinds:
+            for xi in ((0.05,) if q else (0, 0.05, 0.5)):
+                yield Ob('spectra_batching', {'n': 3 if q else 5, 'periods': pl, 'xi': xi, 'dt': dt, 'pkind': pk}, query_ms=120000)
